@@ -48,7 +48,9 @@ QUERIES = ["$.a", "$\n.a\n[0]", "$[\n'a',\n's'\n]", "$..a", "$[?@.a]", "$.arr[?l
            b"$.a\xff", b"\xff\xfe$.a",
            # characters Python's str.strip() removes but that are not JSONPath blank space: part of a shorthand name
            # (NBSP, U+3000) or a syntax error (form feed, unit separator)
-           "$.a\u00a0", "$.a\x0c", "\x1f$.a", "$.s\u3000"]
+           "$.a\u00a0", "$.a\x0c", "\x1f$.a", "$.s\u3000",
+           # rejected texts whose offending token holds a line break: the message still has to be one line
+           '$.a "x\ny"', "$.a 'x\ny' !", '$["a\nb"', "$[?@.a == 'x\ny' 'z']"]
 POINTERS = ["/a/0", "", "/arr/1/0", "/a%20b", "/a b", "/\\u00e9", "/zz", "/a/9", "a", "/s/0",
             # outer blanks: an inline expression is the library's argument as it stands; an expression file is stripped
             "/a/1 ", "/s ", "/a b ", " /a/0", "/a/1\t",
